@@ -645,7 +645,7 @@ func (hc *connectUnaryHandlerConn) writeResponseHeader(err error) {
 	header := hc.responseWriter.Header()
 	if err != nil {
 		if connectErr, ok := asError(err); ok {
-			mergeErrorMetadata(header, connectErr.meta)
+			mergeMetadata(header, connectErr.meta)
 		}
 	}
 	for k, v := range hc.responseTrailer {
@@ -724,7 +724,7 @@ func (m *connectStreamingMarshaler) MarshalEndStream(err error, trailer http.Hea
 	end := &connectEndStreamMessage{Trailer: trailer}
 	if err != nil {
 		if connectErr, ok := asError(err); ok {
-			mergeErrorMetadata(end.Trailer, connectErr.meta)
+			mergeMetadata(end.Trailer, connectErr.meta)
 			end.Error = (*connectWireError)(connectErr)
 		} else {
 			end.Error = (*connectWireError)(NewError(CodeUnknown, err))
